@@ -211,9 +211,9 @@ Definition parse_with (ops : list pop) (ts : list ltok) : option (green * list (
   end.
 
 (* ------------------------------------------------------------------------------------------ *)
-(* Finding F16.  Builds without debug assertions (`cargo build --release`) compile the           *)
+(* Finding F25.  Builds without debug assertions (`cargo build --release`) compile the           *)
 (* debug_assert of expect_tokens_recover out: when a production calls it although the next      *)
-(* token is in the expected set (productions/concurrent_statement.rs does so for a label that   *)
+(* token is in the expected set (productions/concurrent_statement.rs did so until 22440b9 for a label that   *)
 (* is not followed by a statement), the loop returns in its first iteration through the         *)
 (* `expected.contains(&tok)` branch and records the span `start + initial_trivia_len .. start`.  *)
 (* ------------------------------------------------------------------------------------------ *)
